@@ -630,7 +630,8 @@ func (e *Enc) loopCands(fr *Frame, li *loopInfo) []*invCand {
 			}
 		}
 	}
-	if !fr.inl {
+	if !fr.inl && (fr.contract != nil || fr.fn.Name() == "Copy") {
+		// quantified element-wise candidates are only worth their solver time where a contract can use them
 		e.elementTemplates(fr, li)
 	}
 	return li.cands
